@@ -62,6 +62,22 @@ def score_consistency(ctx, tag, call, s1, x, inp, retag=None):
     return v, s, g
 
 
+def held_and_arguments(ctx, tag, obj, x, inp):
+    """a gradient handed out earlier stays what it was when the object is evaluated elsewhere; the caller's
+    vector is left alone"""
+    x0 = np.array(x, float, copy=True)
+    xa = x0.copy()
+    with np.errstate(all='ignore'):
+        s1, g1 = obj.evaluateS1(xa)
+        snap = np.array(g1, float, copy=True)
+        obj.evaluateS1(x0 * np.linspace(1.05, 1.3, len(x0)))
+        obj(x0 * 0.9)
+    if math.isfinite(float(s1)):
+        ctx.spec(tag + '.earlier_gradient_unchanged', np.array_equal(np.asarray(g1, float), snap, equal_nan=True), inp,
+                 {'then': snap, 'now': np.asarray(g1, float)})
+    ctx.spec(tag + '.arguments_unchanged', np.array_equal(xa, x0, equal_nan=True), inp)
+
+
 def whole_numbers(ctx, tag, obj, x, inp):
     """the same whole numbers as floats, as integers and as a list of Python ints are the same parameters:
     score and sensitivities must not depend on how they are handed over"""
@@ -110,6 +126,7 @@ def loglik_case(ctx, chi, rng, i):
         return
     fd_all(ctx, ll, x, g, 'C03.LogLikelihood.gradient_is_derivative', inp)
     whole_numbers(ctx, 'C03.LogLikelihood', ll, x, inp)
+    held_and_arguments(ctx, 'C03.LogLikelihood', ll, x, inp)
     # correspondence with the Lean model of the assembly (unfixed objects)
     if not fixed:
         model = toy.ToyModel(len(kinds), n_mech, i)
@@ -202,6 +219,7 @@ def hier_case(ctx, chi, rng, i, subs=None, n_ids=None):
     fd_all(ctx, hll, x, g, (TAG3 if cov_pooled else 'C03.Hierarchical.gradient_is_derivative'), inp)
     if not cov_pooled:
         whole_numbers(ctx, 'C03.Hierarchical', hll, x, inp)
+    held_and_arguments(ctx, 'C03.Hierarchical', hll, x, inp)
     # glue: placement of the sub-models' blocks (Lean model) against the composed model's result
     if not fixed and not bare:
         try:
